@@ -62,4 +62,18 @@ var checks = map[string]*Check{
 		Assumptions: commonAssumptions,
 		RealStub:    coreRealStub,
 	},
+	"C05": {
+		Legs:        []Leg{{World: "C05", Weight: 1}},
+		Probes:      []string{"body_larger_than_buffers", "lockstep_multi_chunk"},
+		Rule:        "Real agent vs fake proxy that decodes the upload incrementally; lock-step backend flushes chunk i+1 only after the proxy saw chunk i; 1..12 (thorough ..200) chunks of 1 B..70 KiB (thorough ..2 MiB), pauses, SimNet buffer sizes 1..256 KiB, latency 0..200 ms. Each chunk must be visible within 2 s + network time.",
+		Assumptions: commonAssumptions,
+		RealStub:    coreRealStub,
+	},
+	"C08": {
+		Legs:        []Leg{{World: "C08", Weight: 1}},
+		Probes:      []string{"backoff_measured", "reached_cap", "direct_evaluation"},
+		Rule:        "Real agent polling loop vs fake proxy with scripted list failures (5xx, 404, garbled JSON, truncated body, refused dial, hang until the 60 s client timeout) in runs of 1..16 (sometimes ..80) consecutive failures separated by successes; zero network latency so the gap is the back-off sleep; envelope 0.9..1.1 x min(2^k ms, 3 s). Retry counts the loop cannot reach (2^32, max uint, ...) are evaluated by direct calls (reported as probe direct_evaluation, not as simulated runs).",
+		Assumptions: commonAssumptions,
+		RealStub:    coreRealStub,
+	},
 }
